@@ -16,7 +16,7 @@ use crate::util::*;
 use ruzstd::decoding::{BlockDecodingStrategy, Dictionary, FrameDecoder};
 
 fn seqb(lits: Lit, ll: u8, ml: u8, of: u8, seqs: Vec<(u32, u32, u32)>, modes: Option<u8>) -> Block {
-    Block::Comp(SeqBlock { lits, ll_code: ll, ml_code: ml, of_code: of, seqs, count_bytes: None, modes, trailer: vec![] })
+    Block::Comp(SeqBlock { lits, ll_code: ll, ml_code: ml, of_code: of, seqs, count_bytes: None, modes, repeat: [false; 3], trailer: vec![] })
 }
 
 /// frames whose decoding depends on decoder state that a correct reset must have cleared
